@@ -65,6 +65,29 @@ def delayWork (st : DelaySt) (v : View) : DelaySt × Out :=
 def delayBlock (delay : Nat) : Block :=
   { σ := DelaySt, init := ⟨delay, 0⟩, work := delayWork, eof := fun _ v => macroEof v }
 
+/-- `Delay::set_delay`; `none` = the `usize` subtraction `(self.delay - delay) - cdskip` underflows (a panic:
+the crate keeps overflow checks on). -/
+def delaySet (d : Nat) (st : DelaySt) (nd : Nat) : Option (Nat × DelaySt) :=
+  if nd > d then some (nd, { st with currentDelay := nd - d })
+  else
+    let cdskip := min st.currentDelay nd
+    if d - nd < cdskip then none
+    else some (nd, { currentDelay := st.currentDelay - cdskip, skip := (d - nd) - cdskip })
+
+/-- Delay with its control call: state = (configured delay, block state, pending `set_delay`). The harness
+applies a pending call at the start of the next `work()`. -/
+def delayCtlWork (s : Nat × DelaySt × Option Nat) (v : View) : (Nat × DelaySt × Option Nat) × Out :=
+  match s.2.2 with
+  | none => let r := delayWork s.2.1 v; ((s.1, r.1, none), r.2)
+  | some nd =>
+    match delaySet s.1 s.2.1 nd with
+    | none => (s, noOut v .panic)
+    | some (d', st') => let r := delayWork st' v; ((d', r.1, none), r.2)
+
+def delayCtlBlock (delay : Nat) : Block :=
+  { σ := Nat × DelaySt × Option Nat, init := (delay, ⟨delay, 0⟩, none), work := delayCtlWork
+    eof := fun _ v => macroEof v, poke := fun s nd => (s.1, s.2.1, some nd) }
+
 /-! ### RationalResampler -/
 
 /-- `while self.counter > 0 { emit; counter -= deci; if full break }` -/
@@ -134,6 +157,7 @@ def handRegistry (name : String) (p : List Nat) : Option Block :=
   match name, p with
   | "skip", [k] => some (skipBlock k)
   | "delay", [k] => some (delayBlock k)
+  | "delayctl", [k] => some (delayCtlBlock k)
   | "resampler", [i, d] => some (resBlock i d)
   | "rtlsdr", [] => some rtlBlock
   | _, _ => none
